@@ -37,12 +37,14 @@ structure Rearranger where
 deriving Repr
 
 /-- `AddLocation(ipnet, locID)`; the address is the (already masked) network address, `ones` the
-prefix length on the 128-bit scale. The two default-route tests look at the address only. -/
+prefix length on the 128-bit scale. A default route is the whole family: `::/0`, and `0.0.0.0/0`
+(= `::ffff:0:0/96`); since the repair a longer prefix that merely starts at the first address of its
+family (`0.0.0.0/8`, `::/64`) is an ordinary range (before it the tests looked at the address only). -/
 def addLocation (r : Rearranger) (ip ones : Nat) (loc : Bytes) : Rearranger :=
-  if ip = 0 then
+  if ip = 0 ∧ ones = 0 then
     { r with hasV6 := true,
              points := r.points ++ [⟨0, ones, some loc, .start⟩, ⟨afterIPv4, ones, some loc, .start⟩] }
-  else if ip = firstIPv4 then
+  else if ip = firstIPv4 ∧ ones = 96 then
     { r with hasV4 := true,
              points := r.points ++ [⟨firstIPv4, ones, some loc, .start⟩, ⟨afterIPv4, ones, some loc, .stop⟩] }
   else
